@@ -171,7 +171,8 @@ theorem go_closeUpvalues_noop {s : VmState} {top : Nat} (h : UpvaluesBelow s top
     cases s; simp_all
 
 theorem go_ret (s : VmState) (fr caller : Frame) (fs : List Frame)
-    (hfs : s.frames = fs ++ [caller, fr]) (hup : UpvaluesBelow s fr.stackOffset) :
+    (hfs : s.frames = fs ++ [caller, fr]) (hup : UpvaluesBelow s fr.stackOffset)
+    (hle : fr.stackOffset ≤ s.stack.count) :
     Upv.Instr.ret.go s =
       if fr.stackOffset + 1 < s.stack.data.length then
         (.ok { ip := caller.dst },
@@ -193,6 +194,8 @@ theorem go_ret (s : VmState) (fr caller : Frame) (fs : List Frame)
   simp only []
   rw [go_bind, go_get]
   simp only [VStack.clearUntil]
+  rw [show (if fr.stackOffset < s.stack.count then fr.stackOffset else s.stack.count)
+      = fr.stackOffset by split <;> omega]
   rw [go_bind, go_set]
   simp only []
   rw [go_bind, go_get]
@@ -244,7 +247,8 @@ theorem stage_read (g : Nat) (s : VmState) (fr : Frame) (hfr : s.frames.getLast?
 
 /-- `Return` from the callee frame into the trap frame below it -/
 theorem stage_ret (g : Nat) (s : VmState) (fr caller : Frame) (fs : List Frame)
-    (hfs : s.frames = fs ++ [caller, fr]) (hup : UpvaluesBelow s fr.stackOffset) :
+    (hfs : s.frames = fs ++ [caller, fr]) (hup : UpvaluesBelow s fr.stackOffset)
+    (hle : fr.stackOffset ≤ s.stack.count) :
     exec p (g + 1) (.loop (pos + 5)) s =
       if s.remaining - 1 = 0 then
         ({ s with remaining := s.remaining - 1 }, .error ⟨.timeout, pos + 5, s.frames⟩)
@@ -258,7 +262,7 @@ theorem stage_ret (g : Nat) (s : VmState) (fr caller : Frame) (fs : List Frame)
   by_cases hrem : s.remaining - 1 = 0
   · rw [if_pos hrem, if_pos hrem]
   · rw [if_neg hrem, if_neg hrem, Upv.step_ret _ _ _ hc.op5,
-      go_ret s.tick fr caller fs hfs (hup.congr rfl rfl)]
+      go_ret s.tick fr caller fs hfs (hup.congr rfl rfl) hle]
     have htick : s.tick.stack = s.stack := rfl
     rw [htick]
     by_cases hroom : fr.stackOffset + 1 < s.stack.data.length
@@ -333,7 +337,8 @@ theorem loop_run (g : Nat) (s : VmState) (fs : List Frame) (fr : Frame)
     exec p (g + 1 + 1 + 1) (.loop pos) s = (loopEnd s fs fr, .ok none) := by
   rw [stage_read hc (g + 1 + 1) s fr (by rw [hfs]; simp) hoff h2,
     if_neg (by omega), if_pos hroom]
-  rw [stage_ret hc (g + 1) (afterRead s) fr fr fs hfs (by rw [hoff]; exact hup.congr rfl rfl)]
+  rw [stage_ret hc (g + 1) (afterRead s) fr fr fs hfs (by rw [hoff]; exact hup.congr rfl rfl)
+    (by rw [hoff]; show s.stack.count - 2 ≤ s.stack.count + 1; omega)]
   rw [if_neg (by show s.remaining - 1 - 1 ≠ 0; omega),
     if_pos (by show fr.stackOffset + 1 < (s.stack.data.set _ _).length; rw [List.length_set]; omega)]
   rw [hdst, stage_exit hc g, if_neg (by show s.remaining - 1 - 1 - 1 ≠ 0; omega)]
@@ -365,7 +370,8 @@ theorem loop_inv (g : Nat) (s : VmState) (fs : List Frame) (fr : Frame)
     cases g with
     | zero => rw [exec_zero] at h; cases h
     | succ g =>
-      rw [stage_ret hc g (afterRead s) fr fr fs hfs (by rw [hoff]; exact hup.congr rfl rfl)] at h
+      rw [stage_ret hc g (afterRead s) fr fr fs hfs (by rw [hoff]; exact hup.congr rfl rfl)
+    (by rw [hoff]; show s.stack.count - 2 ≤ s.stack.count + 1; omega)] at h
       by_cases hr2 : (afterRead s).remaining - 1 = 0
       · rw [if_pos hr2] at h; cases h
       rw [if_neg hr2, if_pos (by show fr.stackOffset + 1 < (s.stack.data.set _ _).length
